@@ -63,7 +63,7 @@ func HarnessCrash() {
 				w.Armed = true
 			}
 			err := e.open()
-			vrt.Assert("C03.open-after-crash-ok", err == nil)
+			vrt.Assert("C01-C03.open-after-crash-ok", err == nil)
 			if err != nil {
 				return
 			}
@@ -177,7 +177,7 @@ func HarnessCrash() {
 	// ---- clean verification epoch ----
 	e := &env{W: w, FS: fs, Meta: meta, Seg: seg}
 	err := e.open()
-	vrt.Assert("C03.open-after-crash-ok", err == nil)
+	vrt.Assert("C01-C03.open-after-crash-ok", err == nil)
 	if err != nil {
 		return
 	}
